@@ -1,4 +1,5 @@
 import Fatchoy.Model.C06Fine
+import Fatchoy.Model.C05BinHeap
 import Fatchoy.Drv.Util
 /-!
 Line-protocol driver of the timer models (C05 and C06 share it).
@@ -10,6 +11,8 @@ Line-protocol driver of the timer models (C05 and C06 share it).
   advance N     wheel: N ticks (one `update`); heap: N units pass, then one tick        -> fired=ids | panic
   clock N       heap: N units pass, no tick                                             -> ok
   size | sched ID | links                       Size(), IsScheduled(ID), where the back end holds which id
+  harr          heap: the ARRAY of the structural model (Model/C05BinHeap.lean), `ID@INDEX:DEADLINE` in array order
+                (the structural heap runs beside the sorted list; `arr-mismatch` if its sorted contents differ from it)
   fbegin N      a tick in steps (Model/C06Fine.lean): wheel: enter tick; heap: N units pass, enter tick  -> ok
   yield         run the worker to its next schedule point inside the tick              -> decide ID | send ID | none
                 (client lines after it are calls made AT that point: after / every / cancel / size / sched)
@@ -26,7 +29,7 @@ the next `yield` / `fend`) -/
 inductive Sim
   | off
   | wheel (x : WF) (ann : Bool)
-  | heap (x : HF) (ann : Bool)
+  | heap (x : HF) (ann : Bool) (b : BHeap)
 
 def showOut : Out → String
   | .id n => s!"id={n}"
@@ -97,6 +100,38 @@ def hSilent (G : Geom) : Nat → HF → Option HF
     | .ok x' _ => hSilent G fuel x'
     | _ => none
 
+/-- the structural heap after the worker step `a` (add / del / tick) taken from sorted-list state `s` -/
+def shadowAct (G : Geom) (s : HS) (b : BHeap) (a : Act) : BHeap :=
+  match BS.step G { now := s.now, arr := b, f := s.f } a with
+  | .ok s' _ => s'.arr
+  | _ => b
+
+/-- the structural heap after one fine-grained worker step -/
+def shadowNext (x : HF) (b : BHeap) : BHeap :=
+  match x.pc with
+  | .trig now maxId _ =>
+    match BS.trigOne now maxId { now := x.s.now, arr := b, f := x.s.f } with
+    | .cont s' _ => s'.arr
+    | _ => b
+  | _ => b
+
+def hNextB (G : Geom) (x : HF) (b : BHeap) : Option (HF × BHeap) :=
+  match HF.step G x .next with
+  | .ok x' _ => some (x', shadowNext x b)
+  | _ => none
+
+def hSilentB (G : Geom) : Nat → HF × BHeap → Option (HF × BHeap)
+  | 0, p => some p
+  | fuel + 1, (x, b) =>
+    if hIdle x || (hPoint x).isSome then some (x, b) else
+    match hNextB G x b with
+    | some p => hSilentB G fuel p
+    | none => none
+
+def showArr (b : BHeap) : String :=
+  if b.isEmpty then "arr=-" else
+  "arr=" ++ ",".intercalate (b.toList.map fun x => s!"{x.n.id}@{x.index}:{x.n.deadline}")
+
 def showPoint : Option (String × Nat) → String
   | some (k, id) => s!"{k} {id}"
   | none => "none"
@@ -111,7 +146,7 @@ def drvStep (G : Geom) (sim : Sim) (line : String) : Sim × String :=
     | _, _ => (sim, "bad-op")
   | ["new", "heap", t] =>
     match kvNat? [t] "time" with
-    | some t => (.heap (HF.init t) false, "ok")
+    | some t => (.heap (HF.init t) false #[], "ok")
     | none => (sim, "bad-op")
   | _ =>
   match sim with
@@ -168,9 +203,9 @@ def drvStep (G : Geom) (sim : Sim) (line : String) : Sim × String :=
         | .blocked => (sim, "full")
         | .panic => (.off, "panic")
       | none => (sim, "bad-op")
-  | .heap x ann =>
+  | .heap x ann b =>
     let s := x.s
-    let put (s' : HS) : Sim := .heap { x with s := s' } ann
+    let put (s' : HS) : Sim := .heap { x with s := s' } ann b
     match ws with
     | ["cancel", i] =>
       match int? i with
@@ -187,7 +222,7 @@ def drvStep (G : Geom) (sim : Sim) (line : String) : Sim × String :=
         if !hIdle x then (sim, "bad-op") else
         let s0 := { s with now := s.now + n, f := { s.f with log := [], dues := [] } }
         match HS.step G s0 .tick with
-        | .ok s' _ => (put s', firedOf s'.f)
+        | .ok s' _ => (.heap { x with s := s' } ann (shadowAct G s0 b .tick), firedOf s'.f)
         | _ => (.off, "panic")
       | none => (sim, "bad-op")
     | ["fbegin", n] =>
@@ -196,18 +231,18 @@ def drvStep (G : Geom) (sim : Sim) (line : String) : Sim × String :=
         if !hIdle x then (sim, "bad-op") else
         let x0 : HF := { x with s := { s with now := s.now + n, f := { s.f with log := [], dues := [] } } }
         match HF.step G x0 .begin with
-        | .ok x' _ => (.heap x' false, "ok")
+        | .ok x' _ => (.heap x' false b, "ok")
         | _ => (sim, "bad-op")
       | none => (sim, "bad-op")
     | ["yield"] =>
-      let x1 := if ann then (match HF.step G x .next with | .ok x' _ => some x' | _ => none) else some x
-      match x1.bind (hSilent G 8) with
-      | some x' => (.heap x' (hPoint x').isSome, showPoint (hPoint x'))
+      let x1 := if ann then hNextB G x b else some (x, b)
+      match x1.bind (hSilentB G 8) with
+      | some (x', b') => (.heap x' (hPoint x').isSome b', showPoint (hPoint x'))
       | none => (.off, "panic")
     | ["fend"] =>
-      let x1 := if ann then (match HF.step G x .next with | .ok x' _ => some x' | _ => none) else some x
-      match x1.bind (hSilent G 8) with
-      | some x' => if hIdle x' then (.heap x' false, firedOf x'.s.f) else (.heap x' false, "bad-sched")
+      let x1 := if ann then hNextB G x b else some (x, b)
+      match x1.bind (hSilentB G 8) with
+      | some (x', b') => if hIdle x' then (.heap x' false b', firedOf x'.s.f) else (.heap x' false b', "bad-sched")
       | none => (.off, "panic")
     | ["clock", n] =>
       match nat? n with
@@ -219,12 +254,13 @@ def drvStep (G : Geom) (sim : Sim) (line : String) : Sim × String :=
       | some i => (sim, if i ≥ 0 ∧ i.toNat ∈ s.f.refer then "true" else "false")
       | none => (sim, "bad-op")
     | ["links"] => (sim, "0:" ++ showNatList (sortNat (s.heap.map (·.id))))
+    | ["harr"] => (sim, if (b.toList.map (·.n)).foldr hinsert [] == s.heap then showArr b else "arr-mismatch")
     | _ =>
       match act? ws with
       | some a =>
         if (a == .add || a == .del) && !hIdle x then (sim, "bad-op") else
         match HS.step G s a with
-        | .ok s' o => (put s', showOut o)
+        | .ok s' o => (.heap { x with s := s' } ann (shadowAct G s b a), showOut o)
         | .blocked => (sim, "full")
         | .panic => (.off, "panic")
       | none => (sim, "bad-op")
